@@ -12,10 +12,16 @@ C18Cases ==
    {[model |-> "mssm", cls |-> c] : c \in {"generic", "cancel", "heavy", "light"}} \cup
    {[model |-> "thdm", cls |-> c] : c \in {"generic", "cancel", "heavy", "lightNP"}}
 
+\* C06: all sign patterns of (mu, M1, M2, M3, Au_1..3, Ad_1..3, Ae_1..3)
+C06Cases == [1..13 -> {"+", "-"}]
+
+\* C07: classes of base points (lightest SUSY mass >= 300 GeV)
+C07Cases == {"generic", "hightb", "compressed"}
+
 VARIABLE x
 Init == x = 0
 Next == UNCHANGED x
 Spec == Init /\ [][Next]_x
 
-ASSUME JsonSerialize(IOEnv.GEN_OUT, [C18 |-> C18Cases])
+ASSUME JsonSerialize(IOEnv.GEN_OUT, [C18 |-> C18Cases, C06 |-> C06Cases, C07 |-> C07Cases])
 =============================================================================
